@@ -1361,3 +1361,30 @@ pub fn coreify(e: &mut EnumSpec) {
     }
     repair_spellings(e);
 }
+
+
+/// C17: the placeholder arrives through the enum-level prefix; every variant is a one-field tuple
+pub fn gen_prefix_placeholder(rg: &mut Rg) -> EnumSpec {
+    let mut e = EnumSpec::new("En");
+    e.derives = vec!["Display".into()];
+    let prefix = *rg.pick(&["{0}/", "<{0:>3}> ", "{0}", "id={0:?};"]);
+    e.groups = vec![vec![EAttr::Prefix(prefix.to_string())]];
+    if rg.chance(1, 2) {
+        e.groups.push(vec![EAttr::SerializeAll(rg.pick(&model::STYLES).to_string())]);
+    }
+    let n = rg.range(1, 4);
+    let mut idents: Vec<&str> = IDENTS.iter().copied().filter(|s| s.is_ascii()).collect();
+    rg.shuffle(&mut idents);
+    for vi in 0..n {
+        let mut v = VariantSpec::unit(idents[vi]);
+        v.kind = Kind::Tuple;
+        v.fields = vec![FieldSpec { name: None, ty: *rg.pick(&[FieldTy::U8, FieldTy::Str, FieldTy::I32]), default_with: false }];
+        match rg.below(3) {
+            0 => {}
+            1 => v.groups = vec![vec![VAttr::ToString(format!("plain{}", vi))]],
+            _ => v.groups = vec![vec![VAttr::ToString(format!("own[{{0}}]{}", vi))]],
+        }
+        e.variants.push(v);
+    }
+    e
+}
